@@ -182,7 +182,7 @@ func (g *generator) walkObject(schema *openapi3.Schema) (ast.Type, error) {
 			return ast.Type{}, err
 		}
 
-		t := ast.NewMap(ast.String(), valueType)
+		t := ast.NewMap(ast.String(), valueType, ast.Default(typedValue(schema, schema.Default)))
 		t.Nullable = schema.Nullable
 
 		return t, nil
